@@ -15,10 +15,16 @@ CONSTANTS
   ZeroMeansUnset = FALSE
   PrevFiles = {"none", "same", "longer", "shorter", "symlink"}
   Truncates = TRUE
+  InputVariants = {"plain"}
+  TZs = {"UTC0"}
+  AslrBases = {1}
+  DateMacros = "undefined"
+  PrintsPointer = FALSE
   TieBreak = "signature"
 INVARIANT OutputPure
 INVARIANT EpochWins
 INVARIANT NothingStale
+INVARIANT NoAddressNoDate
 INVARIANT EmbedsArgumentsOnly
 INVARIANT IffTotal
 INVARIANT TotalWithTieBreak
